@@ -140,7 +140,13 @@ func (s *StructType) IsAssignableFrom(other Type, typeTable *TypeLookup) error {
 						t.Id, s.Id, member.Id, o.Tname.ArrayDim, member.Tname.ArrayDim),
 				})
 			} else if member.Tname.MapDim != o.Tname.MapDim {
-				if o.Tname.MapDim == 0 {
+				if mt, ot := typeTable.Get(member.Tname),
+					typeTable.Get(o.Tname); mt != nil && ot != nil &&
+					mt.IsAssignableFrom(ot, typeTable) == nil {
+					// The same conversions as outside of a struct, e.g. an
+					// untyped map from a typed map, or a typed map from a
+					// struct.
+				} else if o.Tname.MapDim == 0 {
 					errs = append(errs, &IncompatibleTypeError{
 						Message: fmt.Sprintf(
 							msg+"member %s: not a map",
